@@ -15,6 +15,7 @@ import Driver.C20
 import Driver.C08
 import Driver.C03
 import Driver.C10
+import Driver.C11
 import Driver.C16
 import Driver.C17
 /-! Line-protocol driver: one op per line on stdin (`<Cxx> <op> <args…>`), one answer per line. -/
@@ -39,6 +40,7 @@ def dispatch (line : String) : String :=
   | "C08" :: rest => Driver.C08.handle rest
   | "C03" :: rest => Driver.C03.handle rest
   | "C10" :: rest => Driver.C10.handle rest
+  | "C11" :: rest => Driver.C11.handle rest
   | "C16" :: rest => Driver.C16.handle rest
   | "C17" :: rest => Driver.C17.handle rest
   | _ => "bad-op"
